@@ -194,7 +194,19 @@ func monC23(h *Hist, o *TxnObs) {
 		}
 	}
 	if !authorised {
-		h.V("C23", "unauthorised-"+fn+"-succeeded", fmt.Sprintf("%s by %s (owner %s) succeeded", fn, h.name(o.Txn.ClientID), h.name(owner)), o)
+		// "Unauthorised callers change nothing": a successful transaction that leaves every contract record untouched
+		// (only the caller's own account paid the fee) is a no-op; any changed, created or deleted contract record is not.
+		var touched []string
+		for _, p := range o.Delta.All() {
+			if reg := h.Obs.Lookup(p); reg != nil {
+				touched = append(touched, reg.Key)
+			}
+		}
+		if len(touched) == 0 {
+			h.C("C23", "unauthorised_noop_successes")
+			return
+		}
+		h.V("C23", "unauthorised-"+fn+"-changed-state", fmt.Sprintf("%s by %s (owner %s) succeeded and changed %v", fn, h.name(o.Txn.ClientID), h.name(owner), touched), o)
 		return
 	}
 	if pre != nil && post == nil && len(pre.Pools) == 0 {
